@@ -822,6 +822,9 @@ class Project(MessageHandler):
         """Check if a scoreboard slot is working time."""
         if self.scoreboard is None:
             return self._isDefaultWorkingTime(self.idxToDate(sbIdx))
+        if sbIdx < 0 or sbIdx >= self.scoreboard.size:
+            # Outside the scheduling horizon nothing is working time
+            return False
         result: Any = self.scoreboard[sbIdx]
         return result is None
 
